@@ -30,6 +30,8 @@ class IntermediateCodeGen(AbstractCodeGen):
     """
     constImports = {
         'SNMPv2-SMI': ('iso',
+                       'Bits',  # BITS construct
+                       'Integer32',  # INTEGER is rendered as Integer32
                        'NOTIFICATION-TYPE',  # bug in some MIBs (e.g. A3COM-HUAWEI-DHCPSNOOP-MIB)
                        'MODULE-IDENTITY', 'OBJECT-TYPE', 'OBJECT-IDENTITY'),
         'SNMPv2-TC': ('DisplayString', 'TEXTUAL-CONVENTION',),  # XXX
